@@ -57,7 +57,7 @@ theorem inv_work_urd (c : Cfg) (ar aq : Nat) (s : S) (h : Inv c ar aq s) (hrun :
     by_cases hdr : s.downReset = true
     · have e : (processDone s || s.setupRetry) = true := by simp [processDone, hdr]
       rw [if_pos e]
-      apply finish_inv c ar aq s h hrun (by intro hh; rw [hp] at hh; cases hh)
+      apply finish_inv c ar aq s h hrun (by intro hh; rw [hp] at hh; cases hh) (by intro hh; rw [hp] at hh; cases hh)
       intro _ h2; rw [hdr] at h2; cases h2
     · simp only [Bool.not_eq_true] at hdr
       have e : (processDone s || s.setupRetry) = false := by simp [processDone, hpd, hdr, hur, hsr]
@@ -131,7 +131,7 @@ theorem inv_work_urt (c : Cfg) (ar aq : Nat) (s : S) (h : Inv c ar aq s) (hrun :
   by_cases hdr : s.downReset = true
   · have e : (processDone s || s.setupRetry) = true := by simp [processDone, hdr]
     rw [if_pos e]
-    apply finish_inv c ar aq s h hrun (by intro hh; rw [hp] at hh; cases hh)
+    apply finish_inv c ar aq s h hrun (by intro hh; rw [hp] at hh; cases hh) (by intro hh; rw [hp] at hh; cases hh)
     intro _ h2; rw [hdr] at h2; cases h2
   · simp only [Bool.not_eq_true] at hdr
     have e : (processDone s || s.setupRetry) = false := by simp [processDone, hpd, hdr, hur, hsr]
